@@ -76,3 +76,8 @@ add('C11', 'Hypothesis-generated (F, dt) histories with holds for the 1- and 3-b
     'monotone decay of the stored non-equilibrium energy (recomputed from the committed state in numpy) during holds, and the instantaneous / equilibrium limits of the '
     'virgin energy. Sampling of histories and constants.',
     'Checker-side log strains by numpy eigh; limit bounds 3*(dt/tau) resp. 3*(tau/dt) times the non-equilibrium energy plus 50 ulp of the stiffness; D1 matched by op-by-op re-evaluation.')
+add('C10', 'Hypothesis-generated constants, short committed histories, evaluation states (elastic / yielding / relaxing) and perturbation directions for every model; differential oracle: AD derivatives vs 6th-order finite differences of the energy with two step sizes',
+    'Generated search over all 33 model/option configurations: jax.grad(W):dH against a 6th-order central difference of W, jvp(grad W)[dH] against the difference of the AD gradient and '
+    'dH:C:dH against the 6th-order second difference of W, at states produced by the library update (so the embedded root solve and the hand-written tensor-function JVP rules are '
+    'exercised). Stencils straddling the yield switch are discarded; differences that do not agree between two step sizes make the case inconclusive, never a failure.',
+    'Finite differences of the library energy are the reference; tolerances 1e-6 (first) and 1e-5 (second derivatives) relative to the stiffness scale; D1 matched by op-by-op re-evaluation.')
